@@ -56,8 +56,12 @@ def gen_cases(tier, seed):
         objs = [o for o in objs if len(set(o[1])) == len(o[1])]
         case = {"objs": objs, "target": None, "max_n": rng.randint(2, 5)}
         if rng.random() < 0.3:
-            case["max_itmd_dim"] = rng.randint(1, 2)
+            case["max_itmd_dim"] = rng.randint(0, 2)
         yield case
+    # only scalar intermediates allowed (limit 0)
+    yield {"objs": [["t", ["j", "p", "k"], 1], ["t", ["k", "a"], 1], ["t", ["j", "k"], 1], ["t", ["i", "j", "a"], 1]],
+           "target": "ip", "max_itmd_dim": 0}
+    yield {"objs": [["t", ["i", "k"], 1], ["t", ["k", "j"], 1], ["t", ["j", "a"], 1]], "target": None, "max_itmd_dim": 0}
     n = 250 if tier == "quick" else 5000
     for _ in range(n):
         nobj = rng.randint(1, 4)
@@ -80,8 +84,8 @@ def gen_cases(tier, seed):
             target = {"extra": rng.sample(allidx, rng.randint(0, min(2, len(allidx)))),
                       "tseed": rng.randint(0, 10 ** 6)}
         case = {"objs": objs, "target": target}
-        if rng.random() < 0.3:
-            case["max_itmd_dim"] = rng.randint(1, 3)
+        if rng.random() < 0.35:
+            case["max_itmd_dim"] = rng.randint(0, 3)
         if rng.random() < 0.3:
             case["max_n"] = rng.randint(2, 3)
         if rng.random() < 0.3:
@@ -249,6 +253,6 @@ CHECKS = {
     "schemes.execute": {
         "function": "adcgen.generate_code.optimize_contractions:optimize_contractions",
         "cases": gen_cases, "check": check,
-        "bound": "terms of <= 4 objects (rank <= 3, exponents <= 2, deltas, traces) over 6 index names, optional explicit target order, max_itmd_dim 1..3, max_n_simultaneous_contracted 2..3; hyper-contractions of 4-6 objects of rank <= 2 over 2-3 index names with max_n_simultaneous_contracted 2..5; 2 occ + 2 virt spin orbitals, all target assignments",
+        "bound": "terms of <= 4 objects (rank <= 3, exponents <= 2, deltas, traces) over 6 index names, optional explicit target order, max_itmd_dim 0..3, max_n_simultaneous_contracted 2..3; hyper-contractions of 4-6 objects of rank <= 2 over 2-3 index names with max_n_simultaneous_contracted 2..5; 2 occ + 2 virt spin orbitals, all target assignments",
     },
 }
